@@ -133,6 +133,13 @@ def main():
     proof_broken = bool(coq["failed"])
     search_tier = "thorough" if proof_broken else tier
 
+    # ---------------------------------------------------------------- extraction mappings validated (cached)
+    rc_st, out_st = core.run([sys.executable, os.path.join(ROOT, "tools", "fastz_selftest.py")], timeout=1200)
+    selftest = out_st.strip().splitlines()[-1] if out_st.strip() else "no output"
+    if rc_st != 0:
+        print("check machinery broken: " + selftest)
+        sys.exit(2)
+
     # ---------------------------------------------------------------- builds
     tie_broken = None
     oracle = None
@@ -295,6 +302,7 @@ def main():
             "known_findings_reproduced": dict(known_seen),
             "model_fidelity": dict(fidelity),
             "configs": list(exes.keys()),
+            "extraction_selftest": selftest,
             "explanation": plugin.EXPLANATION,
             "notes": notes,
             "proof_failures": coq["failed"],
